@@ -97,7 +97,7 @@ def run(ctx):
         cx, e = gen.case(ctx.rng.choice([2, 3, depth, depth]))
         cases.append((cx, e, None, None))
     reqs = [{'ctx': G.feel(('ctx', cx)) if cx else '', 'e': G.feel(e), 'scope': True} for cx, e, _, _ in cases]
-    impl = ctx.run_impl('feel', reqs, shards=16, timeout=2400)
+    impl = ctx.run_impl('guard 20000 64 feel', reqs, shards=16, timeout=2400, mem_gb=3)
     # "the result depends only on the expression text and on the values bound to its free names": the same expression over a context
     # extended with bindings of names that do not occur in it (law evaluated on the implementation's own answers)
     used_all = set(G.NAMES)
@@ -113,7 +113,7 @@ def run(ctx):
         cx2 = tuple(sorted(dict(list(cx) + list(extra)).items()))
         ext_idx.append(i)
         ext_reqs.append({'ctx': G.feel(('ctx', cx2)), 'e': text})
-    ext_impl = ctx.run_impl('feel', ext_reqs, shards=16, timeout=2400)
+    ext_impl = ctx.run_impl('guard 20000 64 feel', ext_reqs, shards=16, timeout=2400, mem_gb=3)
     for i, rq2, r2 in zip(ext_idx, ext_reqs, ext_impl):
         ctx.evaluations += 1
         if 'v' in impl[i] and r2.get('v', 'missing') != impl[i]['v']:
@@ -121,11 +121,14 @@ def run(ctx):
                           % (json.dumps(impl[i]['v'])[:150], json.dumps(r2.get('v', r2))[:150]), {'ctx': rq2['ctx'], 'e': rq2['e'], 'ctx_without': reqs[i]['ctx']}, impl=r2, model=impl[i]['v'])
     ctx.cov['free_name_independence_cases'] = len(ext_idx)
     model = ctx.run_model(HEADER, ['case [%s] %s' % ('; '.join('(%d%%N, %s)' % (n, G.coq(x)) for n, x in cx), G.coq(e)) for cx, e, _, _ in cases], shard_size=300)
-    matrix, poisoned, nulls, errs = {}, 0, 0, 0
+    matrix, poisoned, nulls, errs, skipped_resources = {}, 0, 0, 0, 0
     for (cx, e, key, want), ri, rm, rq in zip(cases, impl, model, reqs):
         ctx.evaluations += 1
         case = {'ctx': rq['ctx'], 'e': rq['e']}
         if 'v' not in ri:
+            if 'timeout' in ri or ('crash' in ri and 'memory allocation' in str(ri)):
+                skipped_resources += 1       # legitimate long-running / huge work is not a wrong value (totality is C05's subject)
+                continue
             if 'err' in ri and ri['err'] in ('parse', 'ctx'):
                 errs += 1
                 ctx.corr_broken('the parser rejects a generated core expression', case, ri, None)
@@ -183,7 +186,7 @@ def run(ctx):
              'function definition and positional/named invocation, with ~4%% ill-typed operands and nulls; free names bound in an input context to numbers, strings, booleans, nulls, lists, contexts, functions; '
              'rendered fully parenthesised; non-trivial = distinct expression text with a non-null result; cases whose value the integer model does not compute (inexact division/power) are skipped' % (len(shad), depth),
         extra_cov={'exhaustive': False, 'nesting_pairs_covered': pairs, 'systematic_parent_position_x_child_construct_cases': len(sysc),
-                   'systematic_pairs_not_constructible_by_the_typed_generator': len(sys_missing), 'skipped_not_computed_by_model': poisoned, 'null_results': nulls, 'parse_errors': errs,
+                   'systematic_pairs_not_constructible_by_the_typed_generator': len(sys_missing), 'skipped_not_computed_by_model': poisoned, 'skipped_resource_limit': skipped_resources, 'null_results': nulls, 'parse_errors': errs,
                    'constructs': sorted({k[1] for k in matrix})},
         assumptions=['numbers in generated expressions are small integers (decimal arithmetic is C02\'s subject)', 'names are single words (C10 covers multi-word names)',
                      'built-in functions and temporal values are outside this model (C08, C14, C15)'])
